@@ -413,7 +413,7 @@ let judge_isprob (c : cursor) (r : cursor) : bool * string =
 (* ---------- AMDP discretisation ---------- *)
 let judge_amdp (c : cursor) (r : cursor) : bool * string =
   let v = next c in
-  let sparse = (v = "s") in
+  let sparse = (v = "s" || v = "ss") in
   let k = if sparse then Sparse else Dense in
   let site = if sparse then "AMDP::discretizeSparse" else "AMDP::discretizeDense" in
   let s1 = next_int r in let a = next_int r in let d = next_xq r in
@@ -433,6 +433,13 @@ let judge_amdp (c : cursor) (r : cursor) : bool * string =
   let rq = List.map (List.map (function XFin q -> q | _ -> q_zero)) r' in
   let dm = { mS = nat_of_int s1; mA = nat_of_int a; mT = t'; mR = rq; mD = d } in
   if not (valid_model_kb Dense dm) then oracle_fail "amdp_valid" site "derived model is not a valid MDP";
+  (* O: every row / reward equals the value normalised by the ACCUMULATED mass of the counted contributions
+     (Spec.amdp_spec_okb: filtered sums over the contribution list, no tables) *)
+  let tq = List.map (List.map (List.map (function XFin q -> q | _ -> q_zero))) t' in
+  (* contributions that do not count (|p| <= 1e-6) take part in none of the filtered sums: drop them once *)
+  let counted = List.filter c_counts cs in
+  if not (amdp_spec_okb k (q_of_ints 1 1000000000) (nat_of_int s1) (nat_of_int a) counted tq rq) then
+    oracle_fail "amdp_valid" site "a derived row or reward is not the accumulated-mass-normalised value of the sampled contributions";
   (* C: accumulation + final normalisation of the repaired code on the same contributions *)
   let (tacc, _) = amdp_accumulate k (nat_of_int s1) (nat_of_int a) cs in
   let (mt, mr) = amdp_derive true k (nat_of_int s1) (nat_of_int a) cs in
